@@ -1,6 +1,7 @@
 package app
 
 import (
+	"errors"
 	"strings"
 	"testing"
 	"time"
@@ -300,5 +301,41 @@ func TestVerifFinding_C20_TurboPhaseTargetNotRegistered(t *testing.T) {
 	p, where := vfC20Catch(func() { app.stateManager() })
 	if p != nil {
 		t.Fatalf("VIOLATION C20: manager iteration panicked with a pending switch request to r4, which is in active_nodes but not registered any more: panic: %v [%s]", p, where)
+	}
+}
+
+// (t) repairCascadeNode with the master as fallback source while the master's state is incomplete.
+// History: m1 master, r2 HA replica, b1 HA replica (dead), c1 cascade replica configured with stream_from = b1 but
+// currently streaming from r2. In this iteration SHOW REPLICA STATUS on m1 fails with a transient error although m1
+// answers pings: the manager's state for m1 has PingOk and neither MasterState nor SlaveState (IsMaster false).
+// findBestStreamFrom falls back to the master for c1 (b1 is unhealthy), the candidate differs from the current source,
+// and the GTID guard reads candidateState.SlaveState.ExecutedGtidSet of the master.
+func TestVerifFinding_C20_CascadeFallbackMasterStateIncomplete(t *testing.T) {
+	app, d := vfC20App(t)
+	m1 := vfMaster("m1", vfC20Gtid)
+	r2 := vfReplica("r2", "m1", vfC20Gtid)
+	b1 := vfReplica("b1", "m1", vfC20Gtid)
+	c1 := vfReplica("c1", "r2", vfC20Gtid)
+	vfAddNode(t, app, d, m1, false)
+	vfAddNode(t, app, d, r2, false)
+	vfAddNode(t, app, d, b1, false)
+	cn := vfAddNode(t, app, d, c1, true)
+	d.put(dcs.JoinPath(dcs.PathCascadeNodesPrefix, "c1"), mysql.CascadeNodeConfiguration{StreamFrom: "b1"})
+	vfSetLocal(app, r2)
+	vfCompleteApp(t, app)
+	b1.mu.Lock()
+	b1.Alive = false
+	b1.mu.Unlock()
+	m1.mu.Lock()
+	m1.FailOn = map[string]error{"SHOW REPLICA STATUS": errors.New("Error 1317: Query execution was interrupted"), "SHOW SLAVE STATUS": errors.New("Error 1317: Query execution was interrupted")}
+	m1.mu.Unlock()
+	clusterState := app.getClusterStateFromDB()
+	ms := clusterState["m1"]
+	if ms == nil || !ms.PingOk || ms.IsMaster || ms.SlaveState != nil || ms.MasterState != nil {
+		t.Fatalf("scenario broken: state of m1 is %+v", ms)
+	}
+	p, where := vfC20Catch(func() { app.repairSlaveNode(cn, clusterState, "m1") })
+	if p != nil {
+		t.Fatalf("VIOLATION C20: repair of cascade replica c1 panicked with the master as fallback source while the master's state has neither MasterState nor SlaveState: panic: %v [%s]", p, where)
 	}
 }
